@@ -166,3 +166,19 @@ fn c14_bulk_delete_is_elementwise_batch_3_distinct() {
     assert!(r.len() == 3 && r[0] == e0 && r[1] == e1 && r[2] == e2);
     assert!(same(&m, &m2));
 }
+
+#[kani::proof]
+#[kani::unwind(10)]
+fn c14_bulk_get_is_elementwise_batch_4() {
+    let mut m = any_tiny2();
+    let k0: [u8; 1] = kani::any(); let k1: [u8; 1] = kani::any(); let k2: [u8; 1] = kani::any(); let k3: [u8; 1] = kani::any();
+    let keys: [&[u8]; 4] = [&k0, &k1, &k2, &k3];
+    let mut m2 = m;
+    let r = m.bulk_get(&keys).unwrap();
+    assert!(r.len() == 4);
+    assert!(r[0] == m2.get(&k0[..]).unwrap());
+    assert!(r[1] == m2.get(&k1[..]).unwrap());
+    assert!(r[2] == m2.get(&k2[..]).unwrap());
+    assert!(r[3] == m2.get(&k3[..]).unwrap());
+    assert!(same(&m, &m2));
+}
